@@ -162,4 +162,33 @@ CHECKS = {
              "reach": {"VerifH_SYS_C16": ["end", "healthy-last", "after-disconnect"]}},
         ],
     },
+    "C10": {
+        "groups": [
+            {"name": "c10-base", "files": ["h_c10.go"], "concurrent": True,
+             "harnesses": ["VerifH_C10_Publish", "VerifH_C10_Mixed", "VerifH_C10_Connect", "VerifH_C10_Close"],
+             "flags": {"quick": ["-race", "-delays=1"], "thorough": ["-race", "-delays=2"]},
+             "reach": {"VerifH_C10_Publish": ["checked"], "VerifH_C10_Mixed": ["checked"], "VerifH_C10_Connect": ["end"], "VerifH_C10_Close": ["end"]}},
+            {"name": "c10-retry", "files": ["h_c10.go"], "concurrent": True,
+             "harnesses": ["VerifH_C10_Retry"],
+             "flags": {"quick": ["-race", "-delays=1", P(faults=1)], "thorough": ["-race", "-delays=1", P(faults=2)]},
+             "reach": {"VerifH_C10_Retry": ["end"]}},
+        ],
+    },
+    "C11": {
+        "groups": [
+            {"name": "c11-base", "files": ["h_c11.go"], "harnesses": ["VerifH_C11_Blocking"], "concurrent": True,
+             "flags": {"quick": ["-delays=1"], "thorough": ["-delays=2"]},
+             "reach": {"VerifH_C11_Blocking": ["after-cause", "connection-ended", "final"]}},
+            {"name": "c11-reconnect", "files": ["h_sys_c09.go"], "harnesses": ["VerifH_SYS_C09"], "concurrent": True,
+             "flags": {"quick": [P(faults=1)], "thorough": [P(faults=2)]},
+             "reach": {"VerifH_SYS_C09": ["quiescent"]}},
+        ],
+    },
+    "C07": {
+        "groups": [
+            {"name": "c07-acks", "files": ["h_c11.go", "h_c07.go"], "harnesses": ["VerifH_C07_Acks", "VerifH_C07_SubAck"], "concurrent": True,
+             "flags": {"quick": [P(callers=2, acks=2)], "thorough": ["-delays=1", P(callers=2, acks=3)]},
+             "reach": {"VerifH_C07_Acks": ["end", "completed"], "VerifH_C07_SubAck": ["subscribed"]}},
+        ],
+    },
 }
